@@ -20,8 +20,9 @@ type multiMember struct {
 	cfg    gen.Config
 	orders [][]string
 	// expectations
-	outOf map[string]string // schema file -> output file it must land in
-	pkgOf map[string]string // output file -> package import path
+	expectErr bool              // the input contains an ungeneratable element: the run must return an error
+	outOf     map[string]string // schema file -> output file it must land in
+	pkgOf     map[string]string // output file -> package import path
 }
 
 func objSpec(ps ...*fam.Prop) *fam.Spec { return &fam.Spec{Kind: "object", Props: ps} }
@@ -165,6 +166,46 @@ func multiMembers() []multiMember {
 			orders: [][]string{{"x/s.json", "y/s.json"}},
 			outOf:  map[string]string{"x/s.json": "out.go", "y/s.json": "out.go"}, pkgOf: map[string]string{"out.go": "example.com/pkg/model"}})
 	}
+	// type names from titles: a titled file that refers to another titled file as a whole — each root is named after ITS OWN title
+	{
+		tcfg := base
+		tcfg.StructNameFromTitle = true
+		ra := objSpec(&fam.Prop{Label: "head", Spec: &fam.Spec{RefRootOf: "b.json", Kind: "object"}, Required: true})
+		ra.Title, ra.ConcreteTitle = true, "main thing"
+		rb := objSpec(&fam.Prop{Label: "r", Spec: &fam.Spec{Kind: "integer"}, Required: true})
+		rb.Title, rb.ConcreteTitle = true, "document"
+		rb.NoType = true // properties only: the root is generated when the reference is followed, not by its own file pass
+		out = append(out, multiMember{name: "titled roots, whole-file reference, names from titles", cfg: tcfg,
+			files:  []*fam.FileSpec{{Name: "a.json", ID: "https://example.com/a", Root: ra}, {Name: "b.json", ID: "https://example.com/b", Root: rb}},
+			orders: [][]string{{"a.json"}, {"a.json", "b.json"}, {"b.json", "a.json"}},
+			outOf:  map[string]string{"a.json": "out.go", "b.json": "out.go"}, pkgOf: map[string]string{"out.go": "example.com/pkg/model"}})
+		// ... and with --schema-root-type for the referring file only
+		rcfg := base
+		rcfg.Mappings = []gen.Mapping{{ID: "https://example.com/a", Package: "example.com/pkg/model", Output: "out.go", RootType: "Renamed"}}
+		ra2, rb2 := ra.Clone(), rb.Clone()
+		ra2.Title, rb2.Title = false, false
+		out = append(out, multiMember{name: "whole-file reference with --schema-root-type for the referring file", cfg: rcfg,
+			files:  []*fam.FileSpec{{Name: "a.json", ID: "https://example.com/a", Root: ra2}, {Name: "b.json", ID: "https://example.com/b", Root: rb2}},
+			orders: [][]string{{"a.json"}, {"b.json", "a.json"}},
+			outOf:  map[string]string{"a.json": "out.go", "b.json": "out.go"}, pkgOf: map[string]string{"out.go": "example.com/pkg/model"}})
+	}
+	// two files WITHOUT $id: the referenced file is still processed as a whole — all its types are emitted, and an ungeneratable
+	// element anywhere in it fails the run
+	for _, hostile := range []bool{false, true} {
+		good := objSpec(&fam.Prop{Label: "g", Spec: &fam.Spec{Kind: "string"}, Required: true})
+		good.Ref, good.RefFile = "$defs", "b.json"
+		other := &fam.Spec{Kind: "object", Props: []*fam.Prop{{Label: "o", Spec: &fam.Spec{Kind: "integer"}}}, Ref: "$defs"}
+		name := "two files without $id"
+		if hostile {
+			other = &fam.Spec{Kind: "string", Ref: "$defs", Hostile: "unknown-type"}
+			name = "two files without $id, an unknown type in an unreferenced definition of the referenced file"
+		}
+		fb := &fam.FileSpec{Name: "b.json", ID: "", Root: objSpec(&fam.Prop{Label: "k", Spec: &fam.Spec{Kind: "boolean"}}, &fam.Prop{Label: "other", Spec: other})}
+		fa := &fam.FileSpec{Name: "a.json", ID: "", Root: objSpec(&fam.Prop{Label: "p", Spec: good, Required: true})}
+		out = append(out, multiMember{name: name, cfg: base, files: []*fam.FileSpec{fa, fb}, expectErr: hostile,
+			orders: [][]string{{"a.json"}},
+			outOf:  map[string]string{"a.json": "out.go", "b.json": "out.go"}, pkgOf: map[string]string{"out.go": "example.com/pkg/model"}})
+	}
 	// a whole-file reference to a sibling whose root has properties but no "type" and refers back to itself by file name
 	{
 		self := func() *fam.Spec { return &fam.Spec{RefRootOf: "node.json", Kind: "object"} }
@@ -217,10 +258,13 @@ func ruleMultiSel(c *core.Ctx, want map[string]bool, floor int, words ...string)
 				c.Counts["multi_runs"]++
 				var issues []fam.Issue
 				issues = append(issues, w.RunIssues()...)
-				if w.Err == nil && w.GenErr != "" {
+				if w.Err == nil && w.GenErr != "" && !mm.expectErr {
 					issues = append(issues, fam.Issue{Rule: "A-GENERR", Construct: "generator rejects a valid multi-file input", Msg: w.GenErr})
 				}
-				if w.Err == nil && w.GenErr == "" {
+				if w.Err == nil && w.GenErr == "" && mm.expectErr {
+					issues = append(issues, fam.Issue{Rule: "A-SILENT", Construct: "no error for an ungeneratable element in a referenced file", Msg: "the generator reports success although a definition of the referenced file cannot be generated: it was silently left out"})
+				}
+				if w.Err == nil && w.GenErr == "" && !mm.expectErr {
 					issues = append(issues, w.SynIssues()...)
 					issues = append(issues, w.TypeCheckAll(c.Prog.Repo, mm.pkgOf)...)
 					issues = append(issues, checkRouting(mm, w, args)...)
@@ -252,7 +296,7 @@ func ruleMultiSel(c *core.Ctx, want map[string]bool, floor int, words ...string)
 					if i := strings.IndexByte(base, ':'); i >= 0 {
 						base = base[:i]
 					}
-					if !(want[is.Rule] || want[base] || is.Rule == "A-UNDECIDED" || is.Rule == "A-SYN" || is.Rule == "A-PANIC" || is.Rule == "A-GENERR") {
+					if !(want[is.Rule] || want[base] || is.Rule == "A-UNDECIDED" || is.Rule == "A-SYN" || is.Rule == "A-PANIC" || is.Rule == "A-GENERR" || is.Rule == "A-SILENT") {
 						continue
 					}
 					fn := "(emitted code)"
